@@ -74,7 +74,7 @@ def e_sarg(a):
     if t == 'int':
         return [1, a[1]]
     if t == 'obj':
-        return [2] + e_str(a[1])
+        return [2] + e_str(obj_text(a[1]))
     if t == 'member':
         return [3] + e_str(a[1])
     if t in ('list', 'tuple'):
@@ -87,6 +87,12 @@ def e_sarg(a):
     if t == 'bad':
         return [6, 1 if a[1] else 0]
     raise ValueError(a)
+
+def obj_text(v):
+    """text of AnsiSetting(v) for v a str, an int, or a list/tuple of ints and strs"""
+    if isinstance(v, (list, tuple)):
+        return ';'.join(str(q) for q in v)
+    return str(v)
 
 def e_optsarg(a):
     return ['N'] if a is None else e_sarg(a)
